@@ -317,6 +317,21 @@ Fixpoint sdlist_eqb (a b : list sdstep) : bool :=
   match a, b with [], [] => true | x :: r, y :: s => sdstep_eqb x y && sdlist_eqb r s | _, _ => false end.
 Definition shutdown_ref := [SdDrain; SdStopThreads; SdFreePipes; SdFreePipes].
 
+
+(* ------------------------------------------------ one wake-up per successful push
+   SplitAndAddTask calls WakeThreads(1) after EVERY successful write into the pipe.  That is what "executed eventually, no
+   caller action" needs when scheduled closures depend on later-scheduled ones (or are simply long-running): with all workers
+   asleep, n closures pushed back to back by one thread and each woken worker staying inside the closure it took (long-running /
+   waiting for a later one), n workers must be woken.  [stranded] = closures left in the pipe next to sleeping workers with no
+   wake-up pending. *)
+Inductive wakepolicy := WakeEveryPush | WakeOnEmptyToNonEmpty | WakeUnknown.
+Definition wakes (p : wakepolicy) (n : nat) : nat :=
+  match p with WakeEveryPush => n | WakeOnEmptyToNonEmpty => Nat.min n 1 | WakeUnknown => O end.
+(* workers all asleep; n pushes; each wake-up gets one sleeping worker to take one closure and stay in it *)
+Definition started (p : wakepolicy) (n workers : nat) : nat := Nat.min (wakes p n) workers.
+Definition stranded (p : wakepolicy) (n workers : nat) : nat :=
+  if (started p n workers <? workers)%nat then (n - started p n workers)%nat else O.   (* queued closures while a worker still sleeps *)
+
 (* ================================= C. memory events on the heap LocalTask (by task id) *)
 Inductive mev := MAlloc      (* new LocalTask *)
                | MWriteRC    (* m_RunningCount = 0          AddTaskSetToPipe *)
